@@ -94,6 +94,18 @@ Proof.
 Qed.
 Print Assumptions C05_exactly_one_remove_returns.
 
+(* flush sees a prefix: the id set a flush persists is the one of its linearization point (the
+   moment it obtained the exclusive gate), i.e. the state after a prefix of the linearization *)
+Theorem C05_flush_sees_prefix :
+  forall docs ops sched f ids, NoDup (map fst docs) ->
+    let s := run (init docs ops) sched in
+    nth_error (c_threads s) f = Some (OFlush, TFlushSnap ids) -> ids = c_bitmap s.
+Proof.
+  intros docs ops sched f ids ND s H. apply (flush_sees_current docs ops s) with (f := f); auto.
+  apply run_reach; constructor.
+Qed.
+Print Assumptions C05_flush_sees_prefix.
+
 (* an accepted trace is therefore linearizable: the run it denotes ends in the dumped documents
    and its linearization is a sequential execution ending in exactly those documents *)
 Theorem C05_admitted_trace_is_linearizable :
